@@ -22,6 +22,109 @@ class PureExecutor(Executor):
     def may_be_ref(self, v, st):
         return False
 
+    # ---------------------------------------------------------------- constant tables (dict literals)
+    def const_dict_from_ast(self, node, name):
+        """{'k': <const>, ...} with constant keys and values -> opaque value with known content"""
+        if not (all(isinstance(k, ast.Constant) for k in node.keys)
+                and all(isinstance(v, ast.Constant) or (isinstance(v, ast.Name) and v.id in ('None', 'True', 'False'))
+                        for v in node.values)):
+            return None
+        v = tm.Ctor('VOpq', const(name, INT))
+        self._const_dicts = getattr(self, '_const_dicts', {})
+        self._const_dicts[v] = [(self.lit(k.value), self.const_expr(x, None)) for k, x in zip(node.keys, node.values)]
+        return v
+
+    def const_dict(self, v):
+        return getattr(self, '_const_dicts', {}).get(v)
+
+    def ex_Dict(self, e, st):
+        if e.keys:
+            v = self.const_dict_from_ast(e, 'constdict_l%d' % e.lineno)
+            if v is not None:
+                return [(st.assume(App('opq_truthy', BOOL, v.args[1])), v)]
+        return super().ex_Dict(e, st)
+
+    def const_value(self, node, mod):
+        if isinstance(node, ast.Dict) and node.keys:
+            v = self.const_dict_from_ast(node, 'constdict_m%d' % node.lineno)
+            if v is not None:
+                return v
+        return super().const_value(node, mod)
+
+    def special_method(self, recv, name, args, kw, st, node):
+        """methods of constant tables extracted from the source, and of compiled regular expressions"""
+        table = self.const_dict(recv)
+        if table is not None:
+            if name == 'items' and not args:
+                return [(st, VTuple(seq_of([VTuple(seq_of([k, v])) for k, v in table])))]
+            if name == 'keys' and not args:
+                return [(st, VTuple(seq_of([k for k, _ in table])))]
+            if name == 'values' and not args:
+                return [(st, VTuple(seq_of([v for _, v in table])))]
+            if name == 'get' and 1 <= len(args) <= 2:
+                default = args[1] if len(args) == 2 else VNONE
+                res = default
+                for k, v in reversed(table):
+                    res = Ite(py_eq(args[0], k), v, res)
+                return [(st, res)]
+            raise Unsupported('method %s on a constant table at line %s' % (name, node.lineno))
+        rx = getattr(self, '_regexes', {}).get(recv)
+        if rx is not None and name == 'findall' and len(args) == 1:
+            from .regex import anchored_to_smt
+            out = []
+            ok = st.assume(Is('VStr', args[0]))
+            if ok is not None:
+                re_term = anchored_to_smt(rx)
+                if re_term is None:
+                    raise Unsupported('regular expression %r at line %s' % (rx, node.lineno))
+                m = App('str.in_re', BOOL, Acc('sv', args[0]), re_term)
+                out.append((ok, Ite(m, VList(seq_of([args[0]])), VList(SeqEmpty()))))
+            bad = st.assume(Not(Is('VStr', args[0])))
+            if bad is not None:
+                out.append((bad.raise_('TypeError', node.lineno), None))
+            return out
+        return None
+
+    def contains(self, container, item, st, node):
+        table = self.const_dict(container)
+        if table is not None:
+            return [(st, Or(*[py_eq(item, k) for k, _ in table]))]
+        return super().contains(container, item, st, node)
+
+    def get_item(self, v, idx, st, node):
+        table = self.const_dict(v)
+        if table is not None:
+            hit = Or(*[py_eq(idx, k) for k, _ in table])
+            out = []
+            ok = st.assume(hit)
+            if ok is not None:
+                res = table[-1][1]
+                for k, val in reversed(table[:-1]):
+                    res = Ite(py_eq(idx, k), val, res)
+                out.append((ok, res))
+            miss = st.assume(Not(hit))
+            if miss is not None:
+                out.append((miss.raise_('KeyError', node.lineno), None))
+            return out
+        return super().get_item(v, idx, st, node)
+
+    def external_call(self, imp, attr):
+        if imp[1] == 're' and attr == 'compile':
+            return ('handler', h_re_compile)
+        raise Unsupported('external call %s.%s' % (imp[1], attr))
+
+    def module_attr(self, e, st):
+        """<EnumClass>.__members__ of an Enum defined in the current module: table of member names"""
+        if isinstance(e.value, ast.Name) and e.attr == '__members__' and e.value.id not in st.env and self.cur_func:
+            ci = self.cur_func[-1].module.classes.get(e.value.id)
+            if ci is not None and 'Enum' in ci.builtin_bases():
+                v = tm.Ctor('VOpq', const('enum_members_%s' % ci.name, INT))
+                self._const_dicts = getattr(self, '_const_dicts', {})
+                self._const_dicts[v] = [(self.lit(n), self.lit(n)) for n, x in ci.attrs.items()
+                                        if isinstance(x, ast.Constant)]
+                return v
+        return None
+
     def unsupported_if_feasible(self, st, msg):
         """A construct outside the subset on a path: fail closed unless z3 proves the path dead."""
         if self.path_feasible(st):
@@ -109,9 +212,6 @@ class PureExecutor(Executor):
                     raise Unsupported('module attribute %s.%s' % (base.id, fnode.attr))
                 return self.external_call(imp, fnode.attr)
         return None
-
-    def external_call(self, imp, attr):
-        raise Unsupported('external call %s.%s' % (imp[1], attr))
 
     def call_target(self, target, args, kw, st, node):
         kind = target[0]
@@ -348,3 +448,21 @@ EXTRA_DECLS = """
 (declare-fun opq_is_time (Int) Bool)
 (declare-fun opq_is_datetime (Int) Bool)
 """
+
+
+def h_re_compile(ex, e, st):
+    """re.compile(<literal>): an opaque compiled pattern whose text is known"""
+    from .builtins import eval_args
+    out = []
+    for o, args, kw in eval_args(ex, e, st):
+        if not o.running:
+            out.append((o, None))
+            continue
+        p = args[0]
+        if not (p.op == 'ctor' and p.args[0] == 'VStr' and p.args[1].op == 'str'):
+            raise Unsupported('re.compile of a non-literal pattern at line %s' % e.lineno)
+        v = tm.Ctor('VOpq', const('regex_l%d' % e.lineno, INT))
+        ex._regexes = getattr(ex, '_regexes', {})
+        ex._regexes[v] = p.args[1].args[0]
+        out.append((o, v))
+    return out
